@@ -403,9 +403,9 @@ Section StepOk.
     destruct (grefTag tag); [apply psuffix_suffix, (read_ref_psuffix _ _ _ _ _ H)|discriminate].
   Qed.
 
-  Lemma rf_step_ok t st bs v r st' : rf_step te tm R t st bs = Ok (v, r, st') -> psuffix r bs.
+  Lemma rf_core_ok t st bs v r st' : rf_core te tm R t st bs = Ok (v, r, st') -> psuffix r bs.
   Proof.
-    unfold rf_step. intros H.
+    unfold rf_core. intros H.
     assert (Sl : forall t0, (t0 = t) -> match R_rl R None st bs with
               | Ok (m, r1, st1) => do v0 <- set_slice te (dheap st1) t0 m ;; Ok (v0, r1, st1)
               | Err EEof => match bs with tg :: r1 => if tg =? g_endFlag then Ok (zero te t0, r1, st) else Unmodelled | [] => Unmodelled end
@@ -430,6 +430,13 @@ Section StepOk.
       apply bind_ok in H. destruct H as (v0 & _ & H). inversion H; subst. exact E.
     - apply (Sl (TSlice t) eq_refl H).
     - apply Hrm in H. exact H.
+  Qed.
+  Lemma rf_step_ok t st bs v r st' : rf_step te tm R t st bs = Ok (v, r, st') -> psuffix r bs.
+  Proof.
+    unfold rf_step. destruct bs as [|tag r0]; [apply rf_core_ok|].
+    destruct (scalar_type t && (tag =? g_objectDefTag)); [|apply rf_core_ok].
+    intros H. apply bind_ok in H. destruct H as ([[u r1] st1] & E & H). apply read_class_def_psuffix in E. apply Hrf in H.
+    cbn [snd] in H. apply (psuffix_trans_l _ _ _ H). apply psuffix_suffix. apply suffix_cons. apply psuffix_suffix. exact E.
   Qed.
 
   Lemma rm_step_ok t st bs v r st' : rm_step te R t st bs = Ok (v, r, st') -> psuffix r bs.
